@@ -84,8 +84,13 @@ class Sys19(e1.System):
     def model_key(self, m):
         return m
 
+    thorough = False
+
     def events(self, m):
-        return [['add', 'L1'], ['add', 'L2'], ['add', 'F'], ['add', 'F2'], ['remove', 'l1:1']]
+        ev = [['add', 'L1'], ['add', 'L2'], ['add', 'F'], ['add', 'F2'], ['remove', 'l1:1']]
+        if self.thorough:
+            ev += [['remove', 'l2:1'], ['remove', '*']]
+        return ev
 
     def apply(self, ev, workdir):
         if ev == ['add', 'F']:
@@ -113,6 +118,8 @@ class Sys19(e1.System):
                 st.add_ili(rows_of(*F2))
             elif ev[0] == 'add':
                 st.add_resource(self.res[ev[1]])
+            elif ev[1] == '*':
+                st.remove(list(st.specs()))
             elif st.get(ev[1]):
                 st.remove([ev[1]])
         return st
@@ -126,7 +133,7 @@ class Sys19(e1.System):
     def check(self, m, ev, m2, pre, post, hist, raised):
         V = []
         st0, st = self.store(m), self.store(m2)
-        expect_error = ev[0] == 'remove' and st0.get(ev[1]) is None
+        expect_error = ev[0] == 'remove' and ev[1] != '*' and st0.get(ev[1]) is None
         if raised and not expect_error:
             return [(f'{ev[0]}:raises:{raised[0]}@{raised[1]}', f'{ev} raised {raised} after {hist[:-1]}')]
         A, B = pre['exact'], post['exact']
@@ -192,7 +199,9 @@ def run(tier, seed, jobs=None):
         names = list(dict.fromkeys(names))
     runs, allV, vcount = [], [], {}
     for name in names:
-        st, V, vc = e1.explore(Sys19(name), 'exact', max_depth=depth, jobs=jobs, extend_unchanged=False)
+        sysm = Sys19(name)
+        sysm.thorough = tier == 'thorough'
+        st, V, vc = e1.explore(sysm, 'exact', max_depth=depth, jobs=jobs, extend_unchanged=False)
         st.pop('sdata')
         st.pop('edges')
         st.update({'variant': name, 'depth_bound': depth})
